@@ -69,7 +69,7 @@ type RS struct {
 }
 
 // NumHidden is the number of hidden perturbations per module (0 = none).
-var NumHidden = []int{17, 2, 7, 10, 3, 4}
+var NumHidden = []int{17, 2, 9, 10, 3, 4}
 
 // ID encodes the rule's content class (module, resource, variant) and its table index. Rule
 // managers reuse the controller (and the rule object) of an earlier load for a rule that is
@@ -281,6 +281,12 @@ func BuildHotspot(r RS) *hotspot.Rule {
 			if r.Var == 0 {
 				x.ParamKey = "k"
 			}
+		case 7:
+			// a field the Reject controller never reads: the decisions cannot change, what is reported must
+			x.MaxQueueingTimeMs = 9
+		case 8:
+			// likewise for a throttling rule: the burst count
+			x.ControlBehavior, x.MaxQueueingTimeMs, x.BurstCount = hotspot.Throttling, 5, 4
 		}
 	}
 	return x
@@ -462,6 +468,30 @@ func Token(rule interface{}) string {
 }
 
 // Token of the rule built from the specification.
+// EnforcedToken is Token without the fields that the controller of the rule never reads (a Reject hot-parameter rule
+// has no queue, a throttling one no burst): the controller kept for a rule that came again with another value
+// there still holds the older object, and no decision can tell.
+func EnforcedToken(rule interface{}) string {
+	if x, ok := rule.(*hotspot.Rule); ok && x != nil {
+		c := *x
+		if c.MetricType == hotspot.QPS && c.ControlBehavior == hotspot.Reject {
+			c.MaxQueueingTimeMs = 0
+		}
+		if c.MetricType == hotspot.QPS && c.ControlBehavior == hotspot.Throttling {
+			c.BurstCount = 0
+		}
+		return Token(&c)
+	}
+	return Token(rule)
+}
+
+func (r RS) EnforcedToken() string {
+	if r.M == Hotspot {
+		return EnforcedToken(BuildHotspot(r))
+	}
+	return r.Token()
+}
+
 func (r RS) Token() string {
 	switch r.M {
 	case Flow:
